@@ -156,7 +156,10 @@ func marshalFn(enc string, v any) []byte {
 
 // poison runs an encode call that panics half way through a message (a Go map as attribute value) and recovers,
 // as a server's batch executor does around a handler: whatever the library keeps between calls must survive it.
-func poison(enc string) (panicked bool) {
+func poison(enc string) (panicked bool) { return poisonWith(enc, nil) }
+
+// poisonWith: through the given long-lived encoder (nil: the package-level function with an encoder of its own).
+func poisonWith(enc string, e *ttlv.Encoder) (panicked bool) {
 	defer func() {
 		if recover() != nil {
 			panicked = true
@@ -165,6 +168,11 @@ func poison(enc string) (panicked bool) {
 	m := kmip.RequestMessage{Header: kmip.RequestHeader{ProtocolVersion: kmip.V1_1, BatchCount: 1},
 		BatchItem: []kmip.RequestBatchItem{{Operation: kmip.OperationAddAttribute, RequestPayload: &payloads.AddAttributeRequestPayload{UniqueIdentifier: "poison",
 			Attribute: kmip.Attribute{AttributeName: "x-poison", AttributeValue: map[string]int{"a": 1}}}}}}
+	if e != nil {
+		e.Clear()
+		e.Any(&m)
+		return false
+	}
 	marshalFn(enc, &m)
 	return false
 }
@@ -268,7 +276,7 @@ func Spec() *core.Spec {
 			"H: reused cleared encoders driven through seeded sequences mixing versions, headerless payloads and formats, and single decoders fed several concatenated items. All results must equal R's; race reports with a library frame are violations. " +
 			"XML/JSON inputs with enumeration names; package-level Marshal functions; panicking-and-recovered encodes inside histories; distinct = distinct (process kind, goroutine, first-use order) executions",
 		Assumptions: []string{"results are compared as digests of the output bytes (encode) or of the reference layout of the decoded value (decode)"},
-		Required:    []string{"results_compared", "results_compared_with_fresh_process", "cold_process_goroutines", "history_steps", "poisoned_encodes_recovered"},
+		Required:    []string{"results_compared", "results_compared_with_fresh_process", "cold_process_goroutines", "history_steps", "poisoned_encodes_recovered", "poisoned_reused_encoders"},
 		EvalCounter: "results_compared",
 		RaceVerdict: func(r core.RaceReport) (string, bool) {
 			a, b := core.RaceLibFrames(r)
@@ -370,6 +378,14 @@ func Spec() *core.Spec {
 						for _, idx := range rr.Perm(len(cases)) {
 							k := &cases[idx]
 							steps++
+							if steps%17 == 9 {
+								// the same accident on one of the goroutine's own long-lived encoders (not the XML one: its Clear
+								// refuses an unfinished document); the encoder is cleared before every later use, as always
+								pe := []string{"ttlv", "json", "text"}[rr.Intn(3)]
+								if poisonWith(pe, encoders[pe]) {
+									c.Count("poisoned_reused_encoders", 1)
+								}
+							}
 							if steps%17 == 3 {
 								if poison([]string{"ttlv", "xml", "json", "text"}[rr.Intn(4)]) {
 									c.Count("poisoned_encodes_recovered", 1)
